@@ -32,5 +32,31 @@ func H_C15_binary_time() {
 	dt := ConvertFromBinaryTime(raw, src, ver)
 	vCheck(dt.ToTicks() == ticks, "binary-time/ticks-are-the-eight-bytes")
 	vCheck(dt.Time.Unix() == int64(ticks/10000000)-11644473600, "binary-time/seconds-exact")
+	vCheck(vBytesEq(dt.ToBytes(), raw), "binary-time/DateTime.ToBytes-is-the-tick-count-little-endian")
+	vCheck(dt.ToUniversalTime().Unix() == dt.Time.Unix() && dt.ToUniversalTime().Nanosecond() == dt.Time.Nanosecond(), "binary-time/ToUniversalTime-is-the-same-instant")
+	vCover("end")
+}
+
+// ConvertToBinaryTime is the inverse of ConvertFromBinaryTime: the instant of a tick count converts back to that tick
+// count. The tick count is given as seconds and a sub-second remainder (ticks = q * 10^7 + r), which keeps the solver's
+// work linear.
+func H_C15_binary_time_inverse() {
+	q, r := vU64("q"), vU64("r")
+	vAssume(q <= 922337203685 && r < 10000000)
+	ticks := q*10000000 + r
+	vAssume(ticks != 0 && ticks <= 0x7FFFFFFFFFFFFFFF)
+	versions := [4]uint32{key.KeyCredentialVersion_0, key.KeyCredentialVersion_1, key.KeyCredentialVersion_2, 0x300}
+	ver := key.KeyCredentialVersion{Value: versions[vParam("version")]}
+	src := key.KeySource_AD
+	if vParam("source") == 1 {
+		src = key.KeySource_AzureAD
+	}
+	dt := NewDateTime(ticks)
+	back := ConvertToBinaryTime(dt.Time, src, ver)
+	vCheck(len(back) == 8, "binary-time/to-binary-is-eight-bytes")
+	if len(back) == 8 {
+		got := uint64(back[0]) | uint64(back[1])<<8 | uint64(back[2])<<16 | uint64(back[3])<<24 | uint64(back[4])<<32 | uint64(back[5])<<40 | uint64(back[6])<<48 | uint64(back[7])<<56
+		vCheck(got == ticks, "binary-time/to-binary-is-the-inverse-of-from-binary")
+	}
 	vCover("end")
 }
